@@ -838,6 +838,7 @@ def simp_cc_conds(_, expr):
           expr.args[0].is_op("FLAG_SIGN_SUB") and
           expr.args[2].is_op("FLAG_EQ_CMP") and
           expr.args[0].args == expr.args[2].args and
+          expr.args[0].args[1].is_int(0) and
           expr.args[1].is_int(0)):
         expr = ExprCond(
             ExprOp(TOK_INF_EQUAL_SIGNED, *expr.args[0].args),
@@ -892,6 +893,7 @@ def simp_cc_conds(_, expr):
           expr.args[0].is_op("FLAG_SIGN_SUB") and
           expr.args[2].is_op("FLAG_EQ_CMP") and
           expr.args[0].args == expr.args[2].args and
+          expr.args[0].args[1].is_int(0) and
           expr.args[1].is_int(0)):
         expr = ExprOp(TOK_INF_EQUAL_SIGNED, *expr.args[0].args)
 
